@@ -6,7 +6,7 @@
 From Coq Require Import List Arith Bool ZArith String.
 From PV Require Import Base.Exn Base.Values Base.Ann Model.CheckerCfg Model.Checker Spec.Conforms
   Gen.CheckerTables Proofs.CheckerGood Proofs.CheckerRefine Proofs.CheckerSpec Proofs.CheckerTop Proofs.CheckerRaises
-  Base.PyCall Model.PedanticCfg Model.Pedantic Gen.Pedantic Proofs.PedanticBase Proofs.PedanticWitness Proofs.PedanticC08.
+  Base.PyCall Model.PedanticCfg Model.Pedantic Gen.Pedantic Proofs.PedanticBase Proofs.PedanticWitness Proofs.PedanticC08 Model.GenWrapper Proofs.PedanticC08Gen.
 Import ListNotations.
 
 Definition cfg := Gen.CheckerTables.checker_cfg.
@@ -78,6 +78,28 @@ Proof.
 Qed.
 Print Assumptions C08_wrapper_with_model_checker_partial.
 
+(* ---- generator functions: the call that creates the wrapper, and every operation on it -------------------------------
+   the call gives the wrapper object or a PedanticException (the body does not run at the call); next / send / throw /
+   close on the GeneratorWrapper raise a PedanticException or EXACTLY the exception the same operation on the undecorated
+   generator raises - for every checker that raises only PedanticExceptions, all yield / send / return types, every
+   generator body, every wrapper state and every operation sequence *)
+Theorem C08_generator_call_adds_nothing_partial : forall check consumes,
+  (forall a v tv e tv', check a v tv = (Raise e, tv') -> is_pedantic e = true) ->
+  forall f c, machinery_ok f c -> same_positionals Gen.Pedantic.pedantic_cfg f c -> twin_accepts f c ->
+  ped_out (fst (run_gen Gen.Pedantic.pedantic_cfg check consumes f c)).
+Proof. intros check consumes Hc. exact (gen_call_adds_nothing _ check consumes C08_generated_protocol_good Hc). Qed.
+Print Assumptions C08_generator_call_adds_nothing_partial.
+
+Theorem C08_generator_wrapper_adds_nothing : forall check,
+  (forall a v tv e tv', check a v tv = (Raise e, tv') -> is_pedantic e = true) ->
+  forall yt st rt body ops w rs w', w_run check yt st rt body w ops = (rs, w') ->
+  forall i e, nth_error rs i = Some (WRaise e) ->
+  is_pedantic e = true \/
+  exists rs0 wi o g', w_run check yt st rt body w (firstn i ops) = (rs0, wi) /\ nth_error ops i = Some o /\
+                      inner_op body (w_inner wi) o = (IRaise e, g').
+Proof. intros check Hc yt st rt body. exact (gen_run_adds_nothing check Hc yt st rt body). Qed.
+Print Assumptions C08_generator_wrapper_adds_nothing.
+
 (* excluded region 1 (not machinery_ok): K.plain(self=k, x=1) - the receiver passed by keyword: IndexError *)
 Theorem C08_wrapper_index_error_refuted : exists f c bd,
   twin_accepts f c /\
@@ -106,6 +128,21 @@ Proof.
   intros [H | [b [cons H]]]; vm_compute in H; discriminate H.
 Qed.
 Print Assumptions C08_wrapper_receiver_dropped_refuted.
+
+(* excluded region 1b (the second conjunct of machinery_ok): a plain function whose source text mentions @staticmethod,
+   called with keywords only: FunctionCall indexes full_name.split('.')[-2] of a dot-less name: IndexError
+   (known finding K-C08-staticmethod-text) *)
+Theorem C08_wrapper_staticmethod_text_refuted : exists f c bd,
+  ~ machinery_ok f c /\ twin_accepts f c /\
+  fst (run Gen.Pedantic.pedantic_cfg (assert_matches1 cfg (fun _ => None)) (fun _ _ => false) f c bd) = Raise IndexErrorC
+  /\ ~ allowed bd (Raise IndexErrorC).
+Proof.
+  exists f_static_text, (kwcall [] [(a_, VInt 1%Z)]), (returns (VInt 1%Z)).
+  split; [intros [_ H]; specialize (H eq_refl eq_refl eq_refl); discriminate H|].
+  split; [eexists; vm_compute; reflexivity|]. split; [vm_compute; reflexivity|].
+  intros [H | [b [cons H]]]; vm_compute in H; discriminate H.
+Qed.
+Print Assumptions C08_wrapper_staticmethod_text_refuted.
 
 (* non-vacuity: an inner checker that raises AttributeError / IndexError / RecursionError-like classes *)
 Example ex_inner_raises :
